@@ -1,10 +1,198 @@
 import Model.Common.Proto
+import Model.Common.ECProto
+import Model.Common.HashProto
+import Model.C02.Ecdsa
+import Model.C02.Rfc6979
+import Model.C02.Der
+import Model.C02.Bms
+import Generated.Ecdsa
+import Generated.VarInt
 open Btc
 
-/-- line protocol of property C02: see harness/c02.py -/
-def handle : List String → String
-  -- one line per generated module this driver serves, e.g.
-  -- | "gen" :: "VarInt" :: fn :: args => (Gen.VarInt.dispatch fn args).getD "bad-op"
-  | _ => "bad-op"
+/-! line protocol of property C02: see harness/c02.py -/
+
+def hashSpec? : String → Option Rfc6979.HashSpec
+  | "sha256" => some ⟨hmacSha256, 32⟩
+  | "sha1" => some ⟨hmacSha1, 20⟩
+  | "sha512" => some ⟨hmacSha512, 64⟩
+  | _ => none
+
+/-- `_is_x_coordinate_var` (Python arm): `0 ≤ x < p` and the Legendre symbol of `y²(x)` is not −1 -/
+def isXCoord (c : EC.Curve) (x : Int) : Bool :=
+  decide (0 ≤ x ∧ x < c.p) &&
+    (EC.modPow (EC.y2 c.toCurveGroup x) ((c.p.toNat - 1) / 2) c.p != c.p - 1)
+
+def bool? : String → Option Bool
+  | "1" => some true
+  | "0" => some false
+  | _ => none
+
+def optInt? (s : String) : Option (Option Int) :=
+  if s == "-" then some none else (parseInt? s).map some
+
+def errS (e : Ecdsa.Err) : String := s!"err {e.name}"
+
+def pyBool (b : Bool) : String := if b then "True" else "False"
+
+def renderOut {β : Type} (f : β → String) : Rfc6979.Out β → String
+  | .ok v => "ok " ++ f v
+  | .err e => errS e
+  | .fuel => "err fuel"
+
+def fuel : Nat := 4000
+
+/-- a public key given as a tuple: `point_from_pub_key` refuses what is not on the curve or has y = 0 -/
+def pubKeyOk (c : EC.Curve) (Q : EC.Point) : Bool :=
+  match EC.isOnCurve c.toCurveGroup Q with
+  | some true => Q.2 != 0
+  | _ => false
+
+def pts (l : List EC.Point) : String :=
+  "ok" ++ String.join (l.map fun P => s!" {P.1} {P.2}")
+
+def ecdsaOp : List String → Option String
+  | ["ecdsa.sign", C, c, q, k, ls] => do
+    let C ← EC.curveOfToken C
+    pure <| match Ecdsa.signRecoverable (EC.ops C) (← parseInt? c) (← parseInt? q) (← parseInt? k) (← bool? ls) with
+      | .ok (r, s, kid) => s!"ok {r} {s} {kid}"
+      | .error e => errS e
+  | ["ecdsa.vcore", C, c, qx, qy, r, s, ls] => do
+    let C ← EC.curveOfToken C
+    pure <| match Ecdsa.verifyCore (EC.ops C) (← parseInt? c) (← parseInt? qx, ← parseInt? qy) (← parseInt? r) (← parseInt? s) (← bool? ls) with
+      | .ok _ => "ok"
+      | .error e => errS e
+  | ["ecdsa.verify_", C, hf, m, qx, qy, r, s] => do
+    let C ← EC.curveOfToken C
+    let H ← hashSpec? hf
+    let m ← fromHex? m
+    let Q : EC.Point := (← parseInt? qx, ← parseInt? qy)
+    let r ← parseInt? r
+    let s ← parseInt? s
+    let o := EC.ops C
+    if m.length ≠ H.hlen ∨ ¬ pubKeyOk C Q then
+      -- a digest of the wrong size / a key that is no point: ValueError, hence False;
+      -- but an invalid Sig is refused first, with the same answer
+      pure "ok False False"
+    else
+      let c := Rfc6979.challenge o.n m
+      pure s!"ok {pyBool (Ecdsa.verifyFull o (isXCoord C) c Q r s)} {pyBool (Ecdsa.verify o c Q r s)}"
+  | ["ecdsa.challenge", C, hf, m] => do
+    let C ← EC.curveOfToken C
+    let H ← hashSpec? hf
+    let m ← fromHex? m
+    pure (if m.length ≠ H.hlen then "err value" else s!"ok {Rfc6979.challenge C.n m}")
+  | ["rfc.nonce", C, hf, c, q, extra] => do
+    let C ← EC.curveOfToken C
+    let H ← hashSpec? hf
+    pure <| match Rfc6979.nonce H C.n (← parseInt? c) (← parseInt? q) (← fromHex? extra) fuel with
+      | some k => s!"ok {k}"
+      | none => "err fuel"
+  | ["ecdsa.signmsg", C, hf, m, q, k, ls, grind] => do
+    let C ← EC.curveOfToken C
+    let H ← hashSpec? hf
+    pure <| renderOut (fun (σ : Int × Int) => s!"{σ.1} {σ.2}")
+      (Rfc6979.signMsg (EC.ops C) H (← fromHex? m) (← parseInt? q) (← optInt? k) (← bool? ls) (← bool? grind) fuel)
+  | ["ecdsa.signrec", C, hf, m, q, k, ls] => do
+    let C ← EC.curveOfToken C
+    let H ← hashSpec? hf
+    pure <| renderOut (fun (σ : Int × Int × Int) => s!"{σ.1} {σ.2.1} {σ.2.2}")
+      (Rfc6979.signRecMsg (EC.ops C) H (← fromHex? m) (← parseInt? q) (← optInt? k) (← bool? ls) fuel)
+  | ["ecdsa.recover", C, kid, c, r, s, ls] => do
+    let C ← EC.curveOfToken C
+    pure <| match Ecdsa.recover (EC.ops C) (C.h == 1) (← parseInt? kid) (← parseInt? c) (← parseInt? r) (← parseInt? s) (← bool? ls) with
+      | .ok Q => EC.renderPoint (some Q)
+      | .error e => errS e
+  | ["ecdsa.recoverall", C, c, r, s, ls] => do
+    let C ← EC.curveOfToken C
+    pure <| pts (Ecdsa.recoverAll (EC.ops C) C.h.toNat (← parseInt? c) (← parseInt? r) (← parseInt? s) (← bool? ls))
+  | ["ecdsa.recover_", C, hf, kid, m, r, s] => do
+    let C ← EC.curveOfToken C
+    let H ← hashSpec? hf
+    let m ← fromHex? m
+    let r ← parseInt? r
+    let s ← parseInt? s
+    let kid ← parseInt? kid
+    let o := EC.ops C
+    pure <| match Ecdsa.sigValid o (isXCoord C) r s with
+      | .error e => errS e
+      | .ok _ =>
+        if m.length ≠ H.hlen then "err value" else
+        match Ecdsa.recover o (C.h == 1) kid (Rfc6979.challenge o.n m) r s false with
+        | .ok Q => EC.renderPoint (some Q)
+        | .error e => errS e
+  | ["ecdsa.recoverall_", C, hf, m, r, s] => do
+    let C ← EC.curveOfToken C
+    let H ← hashSpec? hf
+    let m ← fromHex? m
+    let r ← parseInt? r
+    let s ← parseInt? s
+    let o := EC.ops C
+    pure <| match Ecdsa.sigValid o (isXCoord C) r s with
+      | .error e => errS e
+      | .ok _ =>
+        if m.length ≠ H.hlen then "err value" else
+        pts (Ecdsa.recoverAll o C.h.toNat (Rfc6979.challenge o.n m) r s false)
+  | ["ecdsa.crack_", C, hf, m1, r1, s1, m2, r2, s2] => do
+    let C ← EC.curveOfToken C
+    let H ← hashSpec? hf
+    let m1 ← fromHex? m1
+    let m2 ← fromHex? m2
+    let r1 ← parseInt? r1
+    let s1 ← parseInt? s1
+    let r2 ← parseInt? r2
+    let s2 ← parseInt? s2
+    let o := EC.ops C
+    pure <| match Ecdsa.sigValid o (isXCoord C) r1 s1, Ecdsa.sigValid o (isXCoord C) r2 s2 with
+      | .error e, _ => errS e
+      | _, .error e => errS e
+      | .ok _, .ok _ =>
+        if r1 ≠ r2 ∨ s1 = s2 then "err value"
+        else if m1.length ≠ H.hlen ∨ m2.length ≠ H.hlen then "err value" else
+        match Ecdsa.crack o (Rfc6979.challenge o.n m1) r1 s1 (Rfc6979.challenge o.n m2) r2 s2 with
+        | .ok (q, k) => s!"ok {q} {k}"
+        | .error e => errS e
+  | _ => none
+
+def derOp : List String → Option String
+  | ["der.parse", strict, hex] => do
+    pure <| match Der.parse (← bool? strict) (← fromHex? hex) with
+      | some (r, s) => s!"ok {r} {s}"
+      | none => "err value"
+  | ["der.parsev", strict, hex] => do
+    -- `Sig.parse(data, strict=…)` with the default check_validity=True: a secp256k1 signature
+    let o := EC.ops EC.secp256k1
+    pure <| match Der.parse (← bool? strict) (← fromHex? hex) with
+      | some (r, s) =>
+        (match Ecdsa.sigValid o (isXCoord EC.secp256k1) r s with
+         | .ok _ => s!"ok {r} {s}"
+         | .error e => errS e)
+      | none => "err value"
+  | ["der.ser", r, s] => do
+    pure <| Py.renderBytes (Der.serialize (← parseInt? r) (← parseInt? s))
+  | ["bms.flag", kid, comp, t] => do
+    let t ← (match t with | "p2pkh" => some Bms.AddrType.p2pkh | "p2sh" => some .p2sh | "p2wpkh" => some .p2wpkh | _ => none)
+    pure <| match Bms.flag (← kid.toNat?) (← bool? comp) t with
+      | some rf => s!"ok {rf}"
+      | none => "err value"
+  | ["bms.read", rf, t] => do
+    let t ← (match t with | "p2pkh" => some Bms.AddrType.p2pkh | "p2sh" => some .p2sh | "p2wpkh" => some .p2wpkh | _ => none)
+    let rf ← rf.toNat?
+    pure s!"ok {Bms.keyIdOf rf} {pyBool (Bms.compressedOf rf)} {pyBool (Bms.accepts t rf)}"
+  | _ => none
+
+def handle (toks : List String) : String :=
+  match toks with
+  | "gen" :: "Ecdsa" :: fn :: args => (Gen.Ecdsa.dispatch fn args).getD "bad-op"
+  | "gen" :: "VarInt" :: fn :: args => (Gen.VarInt.dispatch fn args).getD "bad-op"
+  | _ =>
+    match hashOp toks with
+    | some r => r
+    | none =>
+      match EC.ecOp toks with
+      | some r => r
+      | none =>
+        match ecdsaOp toks with
+        | some r => r
+        | none => (derOp toks).getD "bad-op"
 
 def main : IO Unit := runLoop handle
